@@ -110,6 +110,8 @@ def gen_more(out):
               (0, 3, 0, 4, 0, 3), (0, 3, 0, 3, 0, 4), (3, 0, 4, 0, 3, 0), (8, 8, 8, 8, 8, 8), (1, 6, 6, 1, 1, 6), (2, 3, 2, 3, 2, 2)):
         t = " ".join(str(x) for x in e)
         out += [f"linalg add2 {t}", f"linalg copy2 {t}", f"linalg swap2 {t}"]
+    for e in ((0, 0), (3, 3), (3, 2), (2, 3), (0, 1), (8, 8)):
+        out += [f"linalg copy1m {e[0]} {e[1]}", f"linalg copy1s {e[0]} {e[1]}"]
     for e in ((2, 3, 3, 2), (2, 3, 2, 2), (2, 3, 3, 3), (2, 3, 2, 3), (0, 0, 0, 0), (2, 0, 0, 2), (2, 0, 1, 2), (0, 2, 2, 0), (0, 2, 2, 1), (8, 8, 8, 8), (3, 3, 3, 4)):
         out.append("linalg mvp " + " ".join(str(x) for x in e))
     for r in [0, 1, 2, 3] + BIG:
